@@ -94,6 +94,7 @@ Proof.
   assert (HB : pd_base c < W128) by (pose proof (pow2_pos (128 - pd_nbits c)); unfold Mn in HT; lia).
   assert (Hi64 : i < W64) by (unfold W64; assert (2 ^ 63 = 9223372036854775808) by reflexivity; lia).
   unfold index_to_prefix. fold (Sh c).
+  destruct (N.ltb_spec 128 (pd_plen c)) as [Hbig|_]; [lia|].
   destruct (N.leb_spec 64 (128 - pd_plen c)) as [Hs|Hs].
   - (* shift >= 64 *)
     set (T := 2 ^ (128 - pd_plen c - 64)).
@@ -296,13 +297,20 @@ From OV Require Import C01.Proofs.
 
 Definition PInv (c : pdcfg) (st : pstate) : Prop := Inv (pd_pool_cfg c) st.
 
+Ltac pd_cbn H := cbn -[prefix_to_index index_to_prefix pool_step lifo_choice N.ltb] in H.
+
 Lemma pd_inv_step c st k st' o : PInv c st -> pd_step Repaired c st k = Some (st', o) -> PInv c st'.
 Proof.
-  unfold PInv. intros HI H. destruct k as [s [[[ip ones] bits]|] | p s | p | p | b | ]; cbn -[prefix_to_index index_to_prefix pool_step] in H.
-  - destruct (prefix_to_index Repaired c (Pfx (Some (V6, ip)) ones bits)) as [i|]; [|discriminate].
-    destruct (index_to_prefix c i =? ip); [|discriminate].
-    destruct (pool_step Repaired (pd_pool_cfg c) st (CAlloc s (Some (key_of_idx i)))) as [[st1 o1]|] eqn:E; [|discriminate].
-    inversion H; subst. eapply inv_step; eauto.
+  unfold PInv. intros HI H. destruct k as [s [[[ip ones] bits]|] | p s | p | p | b | ]; pd_cbn H.
+  - destruct (N.ltb 128 (pd_plen c)).
+    + destruct (lifo_choice st) as [a|]; [|discriminate].
+      destruct ((ip =? pd_base c) && (ones =? 0) && (bits =? 0)); [|discriminate].
+      destruct (pool_step Repaired (pd_pool_cfg c) st (CAlloc s (Some a))) as [[st1 o1]|] eqn:E; [|discriminate].
+      inversion H; subst. eapply inv_step; eauto.
+    + destruct (prefix_to_index Repaired c (Pfx (Some (V6, ip)) ones bits)) as [i|]; [|discriminate].
+      destruct (index_to_prefix c i =? ip); [|discriminate].
+      destruct (pool_step Repaired (pd_pool_cfg c) st (CAlloc s (Some (key_of_idx i)))) as [[st1 o1]|] eqn:E; [|discriminate].
+      inversion H; subst. eapply inv_step; eauto.
   - destruct (pool_step Repaired (pd_pool_cfg c) st (CAlloc s None)) as [[st1 o1]|] eqn:E; [|discriminate].
     inversion H; subst. eapply inv_step; eauto.
   - destruct (prefix_to_index Repaired c p) as [i|]; [|inversion H; subst; exact HI].
@@ -328,10 +336,12 @@ Proof.
 Qed.
 
 Lemma pd_ledger_step_agrees v c st k st' o :
+  pd_plen c <= 128 ->
   pd_step v c st k = Some (st', o) -> leases st' = pd_ledger_step v c (leases st) (k, o).
 Proof.
-  intros H. destruct k as [s [[[ip ones] bits]|] | p s | p | p | b | ]; cbn -[prefix_to_index index_to_prefix pool_step] in H.
-  - unfold pd_ledger_step.
+  intros W H. assert (HB : N.ltb 128 (pd_plen c) = false) by (apply N.ltb_ge; exact W).
+  destruct k as [s [[[ip ones] bits]|] | p s | p | p | b | ]; pd_cbn H.
+  - rewrite HB in H. unfold pd_ledger_step.
     destruct (prefix_to_index v c (Pfx (Some (V6, ip)) ones bits)) as [i|] eqn:P; [|discriminate].
     destruct (index_to_prefix c i =? ip); [|discriminate].
     destruct (pool_step v (pd_pool_cfg c) st (CAlloc s (Some (key_of_idx i)))) as [[st1 o1]|] eqn:E; [|discriminate].
@@ -354,15 +364,20 @@ Proof.
   - inversion H; subst; reflexivity.
 Qed.
 
-Lemma pd_ledger_run v c : forall ks st st' evs,
+Lemma pd_ledger_run v c : pd_plen c <= 128 -> forall ks st st' evs,
   pd_run_from v c st ks = Some (st', evs) -> leases st' = fold_left (pd_ledger_step v c) evs (leases st).
 Proof.
-  induction ks as [|k r IH]; simpl; intros st st' evs H.
+  intros W. induction ks as [|k r IH]; simpl; intros st st' evs H.
   - inversion H; subst; reflexivity.
   - destruct (pd_step v c st k) as [[st1 o]|] eqn:E; [|discriminate].
     destruct (pd_run_from v c st1 r) as [[st2 evs']|] eqn:R; [|discriminate].
-    inversion H; subst. cbn [fold_left]. apply pd_ledger_step_agrees in E. rewrite <- E. eapply IH; eauto.
+    inversion H; subst. cbn [fold_left]. apply pd_ledger_step_agrees in E; [|exact W]. rewrite <- E. eapply IH; eauto.
 Qed.
+
+(* the allocator's lease map (keyed by index) is what a caller reconstructs from the answers *)
+Lemma pd_ledger_agrees v c ks st evs :
+  pd_plen c <= 128 -> pd_run v c ks = Some (st, evs) -> leases st = pd_ledger v c evs.
+Proof. intros W H. apply (pd_ledger_run v c W) in H. exact H. Qed.
 
 Lemma pd_run_split v c : forall ks st st' evs pre e post,
   pd_run_from v c st ks = Some (st', evs) -> evs = pre ++ e :: post ->
@@ -380,6 +395,16 @@ Proof.
       exists (k :: ks1), sa, sb. split; [|exact H2]. simpl. rewrite C, H1. subst p. reflexivity.
 Qed.
 
+Lemma wf_plen c : pd_wf c = true -> pd_plen c <= 128.
+Proof. intros H. apply wf_unpack in H. tauto. Qed.
+
+Lemma pd_assignable_idx c i : assignable (pd_pool_cfg c) (key_of_idx i) = true <-> i < pd_count c.
+Proof.
+  unfold assignable, in_range, is_excluded, pd_pool_cfg, key_of_idx; simpl.
+  rewrite andb_true_r, andb_true_iff, !N.leb_le. unfold pd_count.
+  pose proof (pow2_pos (pd_plen c - pd_nbits c)). lia.
+Qed.
+
 (* every delegated prefix of every accepted history: a /plen inside the network, aligned, and its
    index is held by nobody according to the ledger of the earlier events *)
 Lemma pd_alloc_confined_unique c ks st evs pre s obs ip ones bits post :
@@ -391,18 +416,17 @@ Lemma pd_alloc_confined_unique c ks st evs pre s obs ip ones bits post :
 Proof.
   intros W H E. destruct (pd_run_split _ _ _ _ _ _ _ _ _ H E) as [ks1 [st1 [st2 [H1 H2]]]].
   assert (HI : PInv c st1) by (eapply pd_inv_run; [apply inv_init | exact H1]).
-  unfold pd_ledger. pose proof (pd_ledger_run _ _ _ _ _ _ H1) as HL. simpl in HL. rewrite <- HL.
-  cbn -[prefix_to_index index_to_prefix pool_step] in H2. destruct obs as [[[ip' ones'] bits']|].
-  - destruct (prefix_to_index Repaired c (Pfx (Some (V6, ip')) ones' bits')) as [i|] eqn:P; [|discriminate].
+  rewrite <- (pd_ledger_agrees _ _ _ _ _ (wf_plen _ W) H1).
+  assert (HB : N.ltb 128 (pd_plen c) = false) by (apply N.ltb_ge, wf_plen, W).
+  pd_cbn H2. destruct obs as [[[ip' ones'] bits']|].
+  - rewrite HB in H2.
+    destruct (prefix_to_index Repaired c (Pfx (Some (V6, ip')) ones' bits')) as [i|] eqn:P; [|discriminate].
     destruct (N.eqb_spec (index_to_prefix c i) ip') as [EI|]; [|discriminate].
     destruct (pool_step Repaired (pd_pool_cfg c) st1 (CAlloc s (Some (key_of_idx i)))) as [[sx ox]|] eqn:EP; [|discriminate].
     simpl in EP. destruct (mem_addr (key_of_idx i) (free st1)) eqn:M; [|discriminate].
     inversion H2; subst; clear H2.
     apply mem_addr_In in M. apply HI in M. destruct M as [As L].
-    assert (Hi : i < pd_count c).
-    { unfold assignable, in_range, pd_pool_cfg in As. simpl in As.
-      rewrite !andb_true_iff, N.leb_le in As. unfold pd_count in *.
-      pose proof (pow2_pos (pd_plen c - pd_nbits c)). lia. }
+    assert (Hi : i < pd_count c) by (apply pd_assignable_idx; exact As).
     destruct (pd_roundtrip Repaired c i W Hi) as [_ [R1 [R2 _]]].
     exists i. repeat split; auto.
     + rewrite pti_unfold in P.
@@ -414,19 +438,91 @@ Qed.
 
 (* exhaustion only when every index is held *)
 Lemma pd_exhausted_only_when_full c ks st evs pre s obs post :
+  pd_wf c = true ->
   pd_run Repaired c ks = Some (st, evs) -> evs = pre ++ (PAlloc s obs, QExhausted) :: post ->
   forall i, i < pd_count c -> lm_lookup (key_of_idx i) (pd_ledger Repaired c pre) <> None.
 Proof.
-  intros H E i Hi. destruct (pd_run_split _ _ _ _ _ _ _ _ _ H E) as [ks1 [st1 [st2 [H1 H2]]]].
+  intros W H E i Hi. destruct (pd_run_split _ _ _ _ _ _ _ _ _ H E) as [ks1 [st1 [st2 [H1 H2]]]].
   assert (HI : PInv c st1) by (eapply pd_inv_run; [apply inv_init | exact H1]).
-  unfold pd_ledger. pose proof (pd_ledger_run _ _ _ _ _ _ H1) as HL. simpl in HL. rewrite <- HL.
+  rewrite <- (pd_ledger_agrees _ _ _ _ _ (wf_plen _ W) H1).
+  assert (HB : N.ltb 128 (pd_plen c) = false) by (apply N.ltb_ge, wf_plen, W).
   intros L.
   assert (In (key_of_idx i) (free st1)) as Hin.
-  { apply HI. split; [|exact L]. unfold assignable, in_range, is_excluded, pd_pool_cfg; simpl.
-    rewrite andb_true_r. apply andb_true_iff. split; apply N.leb_le; lia. }
-  cbn -[prefix_to_index index_to_prefix pool_step] in H2. destruct obs as [[[ip' ones'] bits']|].
-  - destruct (prefix_to_index Repaired c (Pfx (Some (V6, ip')) ones' bits')) as [j|]; [|discriminate].
+  { apply HI. split; [|exact L]. apply pd_assignable_idx. exact Hi. }
+  pd_cbn H2. destruct obs as [[[ip' ones'] bits']|].
+  - rewrite HB in H2.
+    destruct (prefix_to_index Repaired c (Pfx (Some (V6, ip')) ones' bits')) as [j|]; [|discriminate].
     destruct (index_to_prefix c j =? ip'); [|discriminate].
     destruct (pool_step Repaired (pd_pool_cfg c) st1 (CAlloc s (Some (key_of_idx j)))) as [[sx ox]|]; inversion H2.
   - simpl in H2. destruct (free st1); [contradiction | discriminate].
+Qed.
+
+(* nothing leaks: the free list is exactly the unheld indices of the pool, without duplicates *)
+Lemma pd_no_leak c ks st evs :
+  pd_wf c = true -> pd_run Repaired c ks = Some (st, evs) ->
+  NoDup (free st) /\
+  (forall a, In a (free st) <->
+     exists i, a = key_of_idx i /\ i < pd_count c /\ lm_lookup (key_of_idx i) (pd_ledger Repaired c evs) = None) /\
+  (length (free st) + length (filter (fun a => lm_mem a (pd_ledger Repaired c evs)) (assignable_list (pd_pool_cfg c)))
+   = length (assignable_list (pd_pool_cfg c)))%nat.
+Proof.
+  intros W H. assert (HI : PInv c st) by (eapply pd_inv_run; [apply inv_init | exact H]).
+  rewrite <- (pd_ledger_agrees _ _ _ _ _ (wf_plen _ W) H).
+  split; [apply HI|]. split; [|apply inv_count; exact HI].
+  intros a. destruct HI as [_ M]. rewrite M. split.
+  - intros [As L]. destruct a as [f n].
+    assert (f = V6).
+    { unfold assignable, in_range, pd_pool_cfg in As. simpl in As.
+      rewrite !andb_true_iff in As. destruct As as [[[Ef _] _] _]. destruct f; [discriminate | reflexivity]. }
+    subst f. exists n. split; [reflexivity|]. split; [apply pd_assignable_idx; exact As | exact L].
+  - intros [i [-> [Hi L]]]. split; [apply pd_assignable_idx; exact Hi | exact L].
+Qed.
+
+(* a reservation succeeds only if nobody else holds the prefix's index; a prefix that is not one of
+   the pool's (foreign, wrong length, nil) is a no-op *)
+Lemma pd_unique_reserve v c ks st evs pre p s o post :
+  pd_plen c <= 128 ->
+  pd_run v c ks = Some (st, evs) -> evs = pre ++ (PReserve p s, o) :: post ->
+  match prefix_to_index v c p with
+  | None => o = QOk
+  | Some i =>
+      (o = QOk /\ (lm_lookup (key_of_idx i) (pd_ledger v c pre) = None \/
+                   lm_lookup (key_of_idx i) (pd_ledger v c pre) = Some s)) \/
+      (o = QReserved /\ exists s', lm_lookup (key_of_idx i) (pd_ledger v c pre) = Some s' /\ s' <> s)
+  end.
+Proof.
+  intros W H E. destruct (pd_run_split _ _ _ _ _ _ _ _ _ H E) as [ks1 [st1 [st2 [H1 H2]]]].
+  rewrite <- (pd_ledger_agrees _ _ _ _ _ W H1). pd_cbn H2.
+  destruct (prefix_to_index v c p) as [i|]; [|inversion H2; reflexivity].
+  destruct (pool_step v (pd_pool_cfg c) st1 (CReserve (Some (key_of_idx i)) s)) as [[sx ox]|] eqn:EP; [|discriminate].
+  inversion H2; subst; clear H2. simpl in EP.
+  destruct (lm_lookup (key_of_idx i) (leases st1)) as [s'|].
+  - destruct (N.eqb_spec s' s); inversion EP; subst; simpl; [left; auto | right; split; eauto].
+  - inversion EP; subst; simpl; left; auto.
+Qed.
+
+(* a released prefix can be delegated again at once *)
+Lemma pd_release_then_allocatable c ks st evs p i st1 o s :
+  pd_wf c = true -> pd_run Repaired c ks = Some (st, evs) ->
+  pd_step Repaired c st (PRelease p) = Some (st1, o) -> prefix_to_index Repaired c p = Some i ->
+  exists st2, pd_step Repaired c st1 (PAlloc s (Some (index_to_prefix c i, pd_plen c, 128)))
+              = Some (st2, QPfx (index_to_prefix c i) (pd_plen c) 128).
+Proof.
+  intros W H HR P.
+  assert (HI : PInv c st) by (eapply pd_inv_run; [apply inv_init | exact H]).
+  assert (HB : N.ltb 128 (pd_plen c) = false) by (apply N.ltb_ge, wf_plen, W).
+  assert (Hi : i < pd_count c).
+  { destruct p as [|ip ones bits]; [discriminate|]. rewrite pti_unfold in P.
+    destruct (negb (bits =? 128) || negb (ones =? pd_plen c)); [discriminate|].
+    destruct (norm ip); [|discriminate].
+    destruct (negb (is_defective Repaired) && negb (inside c (as16 a))); [discriminate|].
+    destruct (N.leb_spec (pd_count c) (pti_idx c (as16 a))); inversion P; subst; assumption. }
+  pd_cbn HR. rewrite P in HR.
+  destruct (pool_step Repaired (pd_pool_cfg c) st (CRelease (Some (key_of_idx i)))) as [[sx ox]|] eqn:ER; [|discriminate].
+  inversion HR; subst; clear HR.
+  destruct (release_then_allocatable (pd_pool_cfg c) st (key_of_idx i) st1 ox s HI ER) as [st2 HA];
+    [apply pd_assignable_idx; exact Hi|].
+  exists st2. cbn -[prefix_to_index index_to_prefix pool_step lifo_choice N.ltb]. rewrite HB.
+  destruct (pd_roundtrip Repaired c i W Hi) as [RT _]. cbv zeta in RT. rewrite RT.
+  rewrite N.eqb_refl. rewrite HA. reflexivity.
 Qed.
